@@ -10,6 +10,7 @@ V : TLC (RenamerTrace) replays the reference resolver over the events with the r
 import json, os, random
 import vlib
 from vlib import Report, tlc, tlc_ok, dlv, write_ndjson, read_ndjson
+import renamer_gen
 
 PID = "C09"
 
@@ -67,6 +68,9 @@ def run(tier):
         allc.append(c)
     for n in ((60, 130) if tier == "quick" else (60, 130, 700, 1500)):
         allc.append(big_program(rng, n))
+    # long structured programs (scopes that close, names declared twice in a scope, kept function names, globals named like locals)
+    for k in range(1500 if tier == "quick" else 20000):
+        allc.append(renamer_gen.program(rng, nstmts=rng.randint(12, 60), names=rng.choice([("a", "b", "x"), ("a", "b"), ("a", "b", "x", "f", "c")])))
     for k, c in enumerate(allc):
         c["id"] = "p%d" % k
         c["listed"] = ["u"]
@@ -97,7 +101,7 @@ def run(tier):
         "samples": [allc[5]["text"], allc[len(allc) // 2]["text"], allc[-3]["text"][:200]],
         "exhaustive": True,
         "design_event_sequences_up_to": maxn, "design_states": g1.distinct,
-        "programs_exhaustive_up_to_2_statements": len(cases), "programs_from_simulation": len(sim), "distinct_programs": len(allc),
+        "programs_exhaustive_up_to_2_statements": len(cases), "long_structured_random_programs": 1500 if tier == "quick" else 20000, "programs_from_simulation": len(sim), "distinct_programs": len(allc),
         "programs_in_which_some_identifier_was_renamed": renamed,
         "checker_cmd": "tlc MC_Renamer (SpecEvents, design) ; tlc MC_Renamer (program builder, exhaustive + -simulate) ; dlv rename ; tlc RenamerTrace",
     })
